@@ -282,6 +282,13 @@ pub fn gen_cartesian(r: &mut Rng) -> (f64, f64) {
             return if r.chance(1, 2) { (d, o) } else { (o, d) };
         }
     }
+    if r.chance(1, 8) {
+        // C02 quantifies over ALL finite x, y: both coordinates at one extreme scale (the squares overflow above ~1.3e154 and lose
+        // their digits below ~1.5e-154)
+        let s = log_uniform(r, -300.0, 300.0);
+        let c = |r: &mut Rng| -> f64 { match r.below(6) { 0 => 0.0, 1 => s, 2 => -s, _ => (r.unit() * 2.0 - 1.0) * s } };
+        return (c(r), c(r));
+    }
     let m = gen_pos(r);
     let pick = |r: &mut Rng| -> f64 {
         match r.below(10) {
@@ -433,7 +440,8 @@ fn gen_args_base(name: &str, sig: &str, r: &mut Rng) -> Vec<Val> {
         "angle.new_from_cartesian" | "geonum.new_from_cartesian" => { let (x, y) = gen_cartesian(r); vec![Val::F(x), Val::F(y)] }
         "geonum.new_with_angle" => vec![Val::F(gen_mag(r)), Val::A(gen_angle(r))],
         "geonum.create_dimension" => vec![Val::F(gen_mag(r)), Val::N(gen_blade(r))],
-        "geonum.scalar" => vec![Val::F(if r.chance(1, 3) { gen_factor(r) } else { gen_mag(r) * if r.chance(1, 2) { -1.0 } else { 1.0 } })],
+        "geonum.scalar" => vec![Val::F(if r.chance(1, 3) { gen_factor(r) } else if r.chance(1, 4) { log_uniform(r, -307.0, 308.0) * if r.chance(1, 2) { -1.0 } else { 1.0 } }
+                                       else { gen_mag(r) * if r.chance(1, 2) { -1.0 } else { 1.0 } })],
         "angle.divf.v" | "angle.divf.r" => {
             let a = mk_angle((gen_blade(r) as u64 % (1u64 << 21)) as usize, gen_rem(r));
             let k = match r.below(8) { 0 => 1.0, 1 => 2.0, 2 => 4.0, 3 => r.range(1, 12) as f64, 4 => 0.5, _ => log_uniform(r, -10.0, 10.0) };
@@ -502,6 +510,7 @@ fn gen_args_base(name: &str, sig: &str, r: &mut Rng) -> Vec<Val> {
         "arith.fmod" => { let (p, _) = gen_new_args(r); vec![Val::F(p * PI), Val::F(QP)] }
         "arith.as_usize" => vec![Val::F(match r.below(4) { 0 => r.range(0, 1 << 41) as f64, 1 => r.unit() * 1e6, 2 => gen_f_generic(r), _ => r.range(0, 100) as f64 + 0.5 })],
         "arith.of_usize" => vec![Val::N(if r.chance(1, 2) { gen_blade(r) } else { r.next() as usize >> r.below(40) })],
+        "arith.is_finite" => vec![Val::F(if r.chance(1, 2) { malform_f(r) } else { gen_f_generic(r) })],
         "arith.is_normal" => vec![Val::F(match r.below(6) { 0 => 0.0, 1 => ulps(f64::MIN_POSITIVE, r.range(-3, 3)), 2 => 5e-324 * (1 + r.below(1000)) as f64, 3 => -ulps(f64::MIN_POSITIVE, r.range(-3, 3)), 4 => malform_f(r), _ => gen_f_generic(r) })],
         "arith.acos" | "arith.asin" | "arith.clamp" => vec![Val::F(match r.below(4) { 0 => 1.0, 1 => -1.0, 2 => ulps(1.0, r.range(-2, 2)), _ => r.unit() * 2.0 - 1.0 })],
         "arith.cos" | "arith.sin" => vec![Val::F(match r.below(4) { 0 => (r.range(0, 4) as f64) * PI / 2.0, 1 => ulps((r.range(0, 4) as f64) * PI / 2.0, r.range(-3, 3)), _ => r.unit() * 2.0 * PI })],
